@@ -232,6 +232,16 @@ def run(w: World, rep: Report):
         rep.check('C17.R4', f'functions.{name}|folds-every-element', not why, line=fi.node.lineno, file=REL, why=why)
     from .rules_templates import sigfields_plumbed
     sigfields_plumbed(w, rep, 'C17.R5')
+    # every parameter of the adapter builders reaches what they build (a dropped sigflags builds a lock for flags 00)
+    rep.rule('C17.R6', 'adapter builders use every parameter they take (sigflags reaches the locks they delegate to)', floor=5)
+    for fi in w.repo.all_funcs(['tools']):
+        if fi.parent is not None or fi.cls is not None or 'adapter' not in fi.name:
+            continue
+        used = {x.id for x in ast.walk(fi.node) if isinstance(x, ast.Name) and isinstance(x.ctx, ast.Load)}
+        unused = [p for p in fi.params if p not in used]
+        rep.check('C17.R6', f'tools.{fi.name}|parameters-used', not unused, line=fi.node.lineno, file='tapescript/tools.py',
+                  why='' if not unused else f'parameter(s) {unused} of {fi.name} are never used: the caller\'s choice (e.g. '
+                  f'sigflags) does not reach the scripts built - lock and witness are made for different flags')
     rep.explanation = (
         'Narrow: decides only a necessary condition of "the adapter passes the adapter check" - that both makers '
         'feed the Fiat-Shamir hash the same term shape as the checker (aggregate of nonce point and tweak point, '
